@@ -12,6 +12,9 @@ Definition pairs := list (K * V).
 (* Python's None is a value like any other; it is token 0 *)
 Definition none_tok : V := 0.
 Definition dflt (d : option V) : V := match d with Some v => v | None => none_tok end.
+(* value tokens 20..29 stand for UNHASHABLE Python objects (lists, dicts): arbitrary values are
+   allowed, but such a value cannot become a key (inverted() raises TypeError) *)
+Definition unhashable (v : V) : bool := Nat.leb 20 v && Nat.ltb v 30.
 
 (* ---- list vocabulary ------------------------------------------------------ *)
 Definition keyb (k : K) (p : K * V) : bool := Nat.eqb (fst p) k.
@@ -232,7 +235,8 @@ Section Step.
         (self, Ok (if multi then OMulti (map (fun k => (k, vals_of self k)) (keys1 self))
                    else OPairs (items1 self)))
     | Counts => (self, Ok (OPairs (map (fun k => (k, length (vals_of self k))) (keys1 self))))
-    | Inverted => (self, Ok (OPairs (map (fun p => (snd p, fst p)) self)))
+    | Inverted => (self, if existsb unhashable (map snd self) then Raise TypeError
+                         else Ok (OPairs (map (fun p => (snd p, fst p)) self)))
     | Sorted f rv => (self, Ok (OPairs (py_sorted (kf_item f) rv self)))
     | SortedValues f rv => (self, Ok (OPairs (sortedvalues_spec self f rv)))
     | Repr => (self, Ok (OPairs self))
